@@ -377,3 +377,36 @@ Definition interleavings (progs : list program) : list (list nat) :=
 (* identities whose append step was executed but which are absent at the end *)
 Definition lost (o : obj) (s0 final : store) (tr : list event) : list N :=
   filter (fun i => negb (mem i (view o (final o)))) (view o (s0 o) ++ log o (writes_of tr)).
+
+(* ------------------------------------------------------------------ worktree confinement *)
+Definition obj_wt (o : obj) : option N :=
+  match o with OCp w _ => Some w | OInit w _ => Some w | ORw w => Some w | ONotes => None end.
+
+(* every object the program reads for update or writes belongs to worktree w *)
+Definition confined (w : N) (p : program) : Prop :=
+  forall st o, In st p -> touches st = Some o -> obj_wt o = Some w.
+
+(* ------------------------------------------------------------------ witnesses *)
+Definition wit_c1 : cpt := {| cp_id := 1; cp_entries := [(10, true)] |}.
+Definition wit_c2 : cpt := {| cp_id := 2; cp_entries := [(11, true)] |}.
+Definition wit_c3 : cpt := {| cp_id := 3; cp_entries := [(10, true); (12, true)] |}.
+Definition wit_cp_progs : list program :=
+  [append_checkpoint_prog 0 7 wit_c1; append_checkpoint_prog 0 7 wit_c2].
+Definition wit_cp3_progs : list program :=
+  [checkpoint_run 0 7 wit_c1; checkpoint_run 0 7 wit_c2; checkpoint_run 0 7 wit_c3].
+Definition wit_ev_progs : list program := [append_event_prog 0 1; append_event_prog 0 2].
+Definition wit_notes_progs : list program := [notes_add_prog 101 11; notes_add_prog 102 22].
+(* commits in two linked worktrees 1 and 2 (different working logs and rewrite logs, same notes ref) *)
+Definition wit_commit_progs : list program :=
+  [commit_prog 1 7 101 1 11 []; commit_prog 2 7 102 2 22 []].
+(* a commit and a checkpoint in the same worktree *)
+Definition wit_commit_ckpt_progs : list program :=
+  [commit_prog 0 7 101 1 11 []; checkpoint_run 0 7 wit_c2].
+Definition wit_wt_progs : list program := [checkpoint_run 1 7 wit_c1; checkpoint_run 2 7 wit_c2].
+Definition r1r2w1w2 : list nat := [0; 1; 0; 1]%nat.
+
+(* for one schedule: the known class holds iff some executed append is missing at the end *)
+Definition known_iff_lost (o : obj) (progs : list program) (sched : list nat) : bool :=
+  let tr := trace_of progs sched in
+  Bool.eqb (negb (stale_free tr))
+           (negb (match lost o empty_store (run progs sched empty_store) tr with [] => true | _ => false end)).
